@@ -67,9 +67,13 @@ def rec_expect(recs, names_by_macro, conv=1.0):
             vals += recs.values(Z, n)
         if not (1 <= Z <= 120) or not vals:
             return [], True
-        pos = [refdata.p10(v / conv) if conv != 1.0 else refdata.p10(v) for v in vals if v > 0]
-        # all records positive -> must return one of them; none positive -> must fail; mixed duplicates -> either
-        return pos, (len(pos) < len(vals))
+        # 135 (Z, name) pairs of fluor_yield.dat and 67 of coskron.dat are recorded twice with different values: every reader of these files is
+        # sequential and a later record supersedes an earlier one, so "the value recorded" is the LAST record (an accept set over all recorded
+        # values would let a reader that drops or reorders records go unnoticed)
+        v = vals[-1]
+        if v > 0:
+            return [refdata.p10(v / conv) if conv != 1.0 else refdata.p10(v)], False
+        return [], True
     return f
 
 
